@@ -36,7 +36,18 @@ class Enumerator:
         return r.to(kw.get("dtype", torch.int64)).expand(*size).contiguous()
 
 
-def events_for(E: int, M: int, s_arg: int, pats: np.ndarray, path: str = "quantise") -> Tuple[List[List[int]], int]:
+def half_patterns(E: int, M: int, dtype: torch.dtype, rng: random.Random, n: int) -> np.ndarray:
+    """float32 patterns of values that ARE exactly representable in `dtype` (float16 / bfloat16) and lie in the lower part of the
+    format's range (subnormals and first binades): there the format's grid can be coarser than the half dtype's own."""
+    bias = 2 ** (E - 1) - 1
+    mn = 2.0 ** (1 - bias)
+    g = torch.Generator().manual_seed(rng.randrange(1 << 30))
+    v = torch.cat([torch.rand(n, generator=g) * mn, torch.rand(n, generator=g) * mn * 8]).to(dtype)
+    v = v[torch.isfinite(v.float()) & (v.float() > 0)]
+    return np.unique(v.float().contiguous().view(torch.int32).numpy().astype(np.int64) & 0x7FFFFFFF)
+
+
+def events_for(E: int, M: int, s_arg: int, pats: np.ndarray, path: str = "quantise", dtype: torch.dtype = torch.float32) -> Tuple[List[List[int]], int]:
     """s_arg = 0 means "default" (all discarded bits).  path: the entry point -- quantise itself, or the straight-through
     wrappers quantise_fwd (forward value) / quantise_bwd (gradient), which format simulation uses."""
     from unit_scaling.formats import FPFormat
@@ -45,7 +56,7 @@ def events_for(E: int, M: int, s_arg: int, pats: np.ndarray, path: str = "quanti
     s = f.srbits
     nd = 1 << s
     x1 = quant.to_tensor(pats)
-    x = x1[:, None].expand(len(pats), nd).contiguous()
+    x = x1[:, None].expand(len(pats), nd).contiguous().to(dtype)       # (exact: half-precision runs use patterns representable in dtype)
     en = Enumerator(s)
     with mock.patch("torch.randint", en):
         if path == "quantise":
@@ -67,7 +78,7 @@ def events_for(E: int, M: int, s_arg: int, pats: np.ndarray, path: str = "quanti
     # kind 3: xs = one independent draw per element in [0, 2^srbits) ; x,a,b = shape, dtype, -
     ev.append([E, M, 5, s, int(api_ok), int(q.shape == x.shape), int(q.dtype == x.dtype), 1, 0, 0])
     xs, xm = quant.bits(x1)
-    qs, qm = quant.bits(q.reshape(-1))
+    qs, qm = quant.bits(q.reshape(-1).float())
     qs = qs.reshape(len(pats), nd)
     qm = qm.reshape(len(pats), nd)
     first = qm[:, 0]
@@ -159,6 +170,17 @@ def run(rep: Report, tier: str) -> None:
             all_paths += [path] * len(ev)
             evals += n
             rep.case(("fmt", E, M, s, path))
+    # half-precision INPUTS (float16 / bfloat16 tensors) for formats with as many mantissa bits as the dtype: nothing to round in the
+    # normal range, but in the format's subnormal range there is
+    for (E, M, dt) in [(E_, M_, dt_) for E_ in range(2, 6) for (M_, dt_) in ((10, torch.float16), (7, torch.bfloat16))]:     # M = mantissa bits of the dtype: results stay representable in it
+        hp = half_patterns(E, M, dt, rng, 6 if quick else 64)
+        for s_ in ((1, 4) if quick else (1, 2, 4, 8)):
+            if s_ <= 23 - M and len(hp):
+                ev, n = events_for(E, M, s_, hp, "quantise", dt)
+                all_events += ev
+                all_paths += ["quantise"] * len(ev)
+                evals += n
+                rep.case(("fmt_half", E, M, s_, str(dt)))
     ip = independence_probe(rep)
     all_events += ip
     all_paths += ["quantise"] * len(ip)
